@@ -57,10 +57,10 @@ CHECKS = {
     note="Trusted: Sig.v (hand-written IC10 signatures) and the literal grammar in ic10.py; hook values; CPython's %.16g taken as correctly rounded (checked by read-back, not modelled). Three open known findings pinned by stored references (neg opcode, empty operand for an unassigned name, unvalidated logic-type name).",
     design="4 C09"),
  "C05": dict(
-    category="proof", technique="Coq theorems about label resolution on machine programs (target = next instruction, label-free result, static label check) + per-compile glue equality evaluated in Coq + identifier adversary + execution of both label modes",
-    text="Kernel-checked for every program and label: the number that replaces a label is the index, in the label-free program, of the (resolved) instruction following the label; the resolved program has no label lines or label operands; the static check implies every referenced label is defined exactly once and resolves. For every compile pair (labels kept / removed, 3-5 option variants) the equality resolve(parse(labelled)) = parse(label-free) is evaluated in Coq on the real outputs, both outputs pass a static jump-target check and are executed against each other. Function names come from adversarial families (prefixes of one another, '<name>end', generated-label and opcode/register look-alikes, also used as device-name strings). A semantic simulation theorem (labelled vs resolved machine runs) is not proved: return addresses differ between the two runs, see DESIGN.",
-    note="Trusted: Coq kernel; Machine.v label semantics; ic10.py reader. Two open known findings (label-name clashes: '<name>end' vs function <name>end; functions named like generated labels).",
-    design="4 C05"),
+    category="proof", technique="Coq: semantic theorem for the call-free fragment (label-free program simulates the labelled one step for step, all programs / oracles / fuel) + structural resolution theorems for all programs + per-compile glue equality and fragment membership evaluated in Coq + identifier adversary + execution of both label modes",
+    text="Kernel-checked: (1) for EVERY labelled program whose labels occur only as targets of absolute non-linking jumps/branches (no jal/jr/relative branches, no alias names), every device behaviour and every number of steps, the label-free program resolve(q) reaches the same effect history, status, registers and memory, its pc being the number of instruction lines before q's pc (simulation proof over all instructions of the machine; instantiated for binary64 and programs up to 4096 lines); (2) for every program and label the number that replaces a label is the index, in the label-free program, of the instruction following the label; the resolved program has no label lines or operands; the static check implies every referenced label is defined once. For every compile pair (labels kept / removed, 3-5 option variants) the equality resolve(parse(labelled)) = parse(label-free) and membership in the fragment are evaluated in Coq on the real outputs: pairs in the fragment with the equality are decided by theorem (1) (126 of 266 in the last quick run, reported in the evidence); all pairs additionally pass a static jump-target check and are executed against each other. Function names come from adversarial families (prefixes, '<name>end', generated-label and opcode/register look-alikes, also used as device-name strings; comment and label look-alikes inside HASH literals).",
+    note="Programs with calls are outside theorem (1): return addresses held in ra / on the stack differ between the two renderings; for them the decision is the per-compile glue + execution (bounded). Trusted: Coq kernel; Machine.v label semantics; ic10.py reader. Two open known findings (label-name clashes: '<name>end' vs function <name>end; functions named like generated labels).",
+    design="4 C05, 11.2"),
  "C06": dict(
     category="proof", technique="Coq: shadow-call-stack monitor proved not to disturb the machine; model of add_ra_instructions with shape theorem for all function bodies (fixed-slot) + correspondence in both conventions; monitored execution of generated call graphs",
     text="Kernel-checked: the monitored run is the machine's run for every program/oracle/fuel/state; for EVERY function body of the emitted shape that makes a call, add_ra_instructions (fixed-slot) yields one push ra on entry and one pop ra after the end label, so every exit (early returns jump to the end label) restores ra; functions without calls or returns are untouched. The model of add_ra_instructions (both conventions) is compared with the real method on 1000+ synthetic instruction lists. Generated programs with functions (arities 0-3, early returns, calls in expressions) are compiled under five option sets; every executed return is checked by the monitor (returns to the call being served, stack-pointer delta 0 / -args+result) and effect traces are compared with the source.",
@@ -68,7 +68,7 @@ CHECKS = {
     design="4 C06"),
  "C14": dict(
     category="proof", technique="Coq: verified outcome analysis of control skeletons (soundness for every skeleton, environment and execution) evaluated on the regenerated skeletons of process_input and main + scripted-stdin runs of the real daemon under five interpreter environments",
-    text="The statement structure of process_input and main is re-read from mod_daemon.py on every run. A small operational semantics of such skeletons (any expression not listed as safe may raise any Exception subclass; one tracked variable) and an analysis of all possible (outcome, replies written) pairs are defined in Coq with a kernel-checked soundness theorem over all skeletons/executions. Evaluated on the regenerated skeletons the kernel checks: on a non-empty line every path returns normally with exactly one reply written; an empty line writes nothing; the main loop lets no exception escape and makes stdin lenient before reading; the only statement writing to the saved stdout is the reply and stdout is redirected at import. The real daemon is run on generated request histories (22 request kinds incl. undecodable bytes, blank lines, EXIT/EOF variants) under five environments; count, order, decodability and class of replies are checked.",
+    text="The statement structure of process_input and main is re-read from mod_daemon.py on every run. A small operational semantics of such skeletons (any expression not listed as safe may raise any Exception subclass; one tracked variable) and an analysis of all possible (outcome, replies written) pairs are defined in Coq with a kernel-checked soundness theorem over all skeletons/executions. Evaluated on the regenerated skeletons the kernel checks: on a non-empty line every path returns normally with exactly one reply written; an empty line writes nothing; by induction over request histories the number of replies after any history (and after each of its prefixes) equals the number of non-empty lines served; the main loop lets no exception escape and makes stdin lenient before reading; the only statement writing to the saved stdout is the reply and stdout is redirected at import. The real daemon is run on generated request histories (22 request kinds incl. undecodable bytes, blank lines, EXIT/EOF variants) under five environments; count, order, decodability and class of replies are checked.",
     note="Trusted: Coq kernel; SkelSem.v semantics and the listed non-raising assumptions (SkelEnvs.v); translator skeletons.py. BaseException-only exceptions, OS pipes and buffering are outside the model (exercised by the process runs only). The per-line theorem and the loop structure are connected by reading, not by a machine-checked composition.",
     design="4 C14"),
  "C10": dict(
@@ -88,7 +88,7 @@ CHECKS = {
     design="4 C12"),
  "C04": dict(
     category="proof", technique="Coq proofs about a faithful model of register_assignment.py (interval colouring for all symbol lists, scope ordering for all call graphs, register range / limit) + correspondence with assign_colors and with the allocation decisions exported by the hook + liveness-based interference check and register-pressure runs",
-    text="Kernel-checked: for EVERY list of symbols (any order, any lifetimes) assign_colors gives different colours to symbols with overlapping lifetimes (stable sort, expiry and free-list reuse modelled as written); for EVERY call graph the scope ordering, when it succeeds, places every scope after its callers, and any call cycle (recursion) makes it fail; a scope only receives registers among r0..r15 that its callers have not blocked, and a colour beyond the available registers is the out-of-registers error. The colouring model is compared with the real assign_colors on random interval sets; on every compile the exported scope order, available lists, colours and map are re-derived, a liveness-based interference check runs on the pre-allocation instruction stream (CFG with call/return edges), and register-pressure programs (3..20 simultaneously live variables, loop-carried variables, values live across call chains) are executed against the source.",
+    text="Kernel-checked: for EVERY list of symbols (any order, any lifetimes) assign_colors gives different colours to symbols with overlapping lifetimes (stable sort, expiry and free-list reuse modelled as written); for EVERY call graph the scope ordering, when it succeeds, places every scope after its callers, and any call cycle (recursion) makes it fail; a scope only receives registers among r0..r15 that its callers have not blocked, and a colour beyond the available registers is the out-of-registers error. The colouring model is compared with the real assign_colors on random interval sets; on every compile (generated, directed shapes, register-pressure programs, and all of the repository's own programs and the text corpus incl. multi-module programs) the exported scope order, available lists, colours and map are re-derived, a liveness-based interference check runs on the pre-allocation instruction stream (CFG with call/return edges, jump tables), and register-pressure programs (3..20 simultaneously live variables, loop-carried variables, values live across call chains) are executed against the source.",
     note="NOT proved: that the line-interval lifetimes computed from the source cover true liveness (types.py lifetime); this link is tested by the interference check and the pressure runs only. AllocCheck with a soundness theorem (T2) is not built; the interference check is harness code. Trusted: Coq kernel; RegAlloc.v; hook exports.",
     design="4 C04"),
  "C13": dict(
